@@ -62,6 +62,30 @@ def install_clock(clock, modules):
     return n
 
 
+_real_time, _real_time_ns = time.time, time.time_ns
+
+
+def _lib_running():
+    from . import simfs
+    d = simfs._DISK
+    return _CLOCK is not None and d is not None and d.actor != "harness"
+
+
+def _sim_time():
+    return float(_CLOCK.now) if _lib_running() else _real_time()
+
+
+def _sim_time_ns():
+    return int(_CLOCK.now * 1e9) if _lib_running() else _real_time_ns()
+
+
+def install_time():
+    """time.time()/time_ns() read the simulated clock while library code runs (and only then:
+    the runner's own budgets use the real one)."""
+    if time.time is not _sim_time:
+        time.time, time.time_ns = _sim_time, _sim_time_ns
+
+
 def set_tz(name):
     os.environ["TZ"] = name
     time.tzset()
